@@ -103,7 +103,8 @@ var c09Users = []string{"alice", "bob", "carol"}
 // client addresses; two of them extend another one as a string (10.0.1.1 /
 // 10.0.1.11, 10.0.1.2 / 10.0.1.23) so that prefix instead of equality
 // comparisons of addresses are exposed
-var c09ClientIPs = []net.IP{net.IPv4(10, 0, 1, 1), net.IPv4(10, 0, 1, 2), net.IPv4(10, 0, 1, 11), net.IPv4(10, 0, 1, 23), net.IPv4(10, 0, 1, 3)}
+var c09ClientIPs = []net.IP{net.IPv4(10, 0, 1, 1), net.IPv4(10, 0, 1, 2), net.IPv4(10, 0, 1, 11), net.IPv4(10, 0, 1, 23), net.IPv4(10, 0, 1, 3),
+	net.ParseIP("fd00::5")} // an IPv6 client: its address prints as [fd00::5]:port
 
 func clientIP(i int) net.IP { return c09ClientIPs[i%len(c09ClientIPs)] }
 
@@ -118,6 +119,13 @@ func c09Gen(r *Rand, tier string, i int) Scenario {
 			switch r.Intn(8) {
 			case 0:
 				f.Lines = append(f.Lines, C09Line{Kind: "comment", Comment: PickOf(r, "# a comment", "#", "# ssh-ed25519 AAAA not a key", "#key of bob")})
+				if r.Bool(0.15) {
+					// a big file (shared account, generated file): more than 32 KiB / 64 KiB of
+					// comment lines in front of the remaining keys
+					for k := 0; k < PickOf(r, 40, 80); k++ {
+						f.Lines = append(f.Lines, C09Line{Kind: "comment", Comment: "# " + strings.Repeat("managed-by-automation ", 40)})
+					}
+				}
 			case 1:
 				f.Lines = append(f.Lines, C09Line{Kind: "blank", Comment: PickOf(r, "", " ", "\t")})
 			case 2:
@@ -143,7 +151,7 @@ func c09Gen(r *Rand, tier string, i int) Scenario {
 		}
 		na := r.Intn(4)
 		for a := 0; a < na; a++ {
-			job.AllowFrom = append(job.AllowFrom, PickOf(r, "10.0.1.1", "10.0.1.2", "10.0.1.3", "10.0.1.1", "10.0.1.2", "10.0.1.11", "host-a", "host-b", "host-multi", "host-down", "nosuchname", "localhost"))
+			job.AllowFrom = append(job.AllowFrom, PickOf(r, "10.0.1.1", "10.0.1.2", "10.0.1.3", "10.0.1.1", "10.0.1.2", "10.0.1.11", "host-a", "host-b", "host-multi", "host-down", "nosuchname", "localhost", "fd00::5", "host-six"))
 		}
 		sc.Jobs = append(sc.Jobs, job)
 	}
@@ -151,6 +159,7 @@ func c09Gen(r *Rand, tier string, i int) Scenario {
 	sc.Zone["host-b"] = []string{"10.0.1.2"}
 	sc.Zone["host-multi"] = []string{"10.9.9.9", "10.0.1.3", "10.0.1.2"}
 	sc.Zone["localhost"] = []string{"127.0.0.1"}
+	sc.Zone["host-six"] = []string{"fd00::5"}
 	sc.ZoneFail = []string{"host-down"}
 	// attempts
 	na := r.Range(2, 10)
